@@ -9,6 +9,7 @@ import AslModel.Lite
 import Proofs.Lemmas.Timestamp
 import Proofs.Lemmas.Log
 import Proofs.Lemmas.FuelMono
+import Proofs.Lemmas.Deadline
 namespace Asl.C08
 open Asl
 
@@ -143,11 +144,11 @@ theorem clock_monotone (env : Env) (fuel : Nat) (states : Json) (name : Str) (da
 
 /-- … the same for the branches of a Parallel state and the iterations of a Map state taken together -/
 theorem clock_monotone_fanout (env : Env) (fuel : Nat) (bs : List Json) (params ctx : Json) (st : St)
-    (proc : Json) (sel : Option Json) (input : Json) (items : List Json) (i mc : Nat) (be : Rat) :
+    (proc : Json) (sel : Option Json) (input : Json) (items : List Json) (i mc : Nat) (be : Rat) (bad : Bool) :
     st.clock ≤ (runBranches env fuel bs params ctx st).2.clock ∧
-    st.clock ≤ (runItems env fuel proc sel input items i mc be ctx st).2.clock :=
+    st.clock ≤ (runItems env fuel proc sel input items i mc be ctx bad st).2.clock :=
   ⟨((growsAll env fuel).runBranches bs params ctx st).clock_le,
-   ((growsAll env fuel).runItems proc sel input items i mc be ctx st).clock_le⟩
+   ((growsAll env fuel).runItems proc sel input items i mc be ctx bad st).clock_le⟩
 
 /-- … and of the whole predicted history: every event has its instant, none is negative, and the
 instant the run ended is not before the start -/
@@ -157,7 +158,7 @@ theorem history_instants (env : Env) (fuel : Nat) (asl input ctx : Json) :
   have G : Grows {} (runCore env fuel asl input ctx).2 := by
     unfold runCore
     split
-    · exact (growsAll env fuel).runFrom _ _ _ _ _ _
+    · exact (growsAll (env.forMachine asl) fuel).runFrom _ _ _ _ _ _
     · exact Grows.refl _
   obtain ⟨evs, ts, hl, _, _, _, hm, hn, hg, hc⟩ := G
   have hl' : (runCore env fuel asl input ctx).2.log = evs := by simpa using hl
@@ -179,12 +180,14 @@ theorem history_instants (env : Env) (fuel : Nat) (asl input ctx : Json) :
 
 /-- (ii) a Wait state is over at its target instant — `Seconds` / `SecondsPath` after it was entered, or the
 `Timestamp` / `TimestampPath` instant — and never before it: it goes on (OutputPath, then Next / End) at
-max(target, the instant it was entered) -/
+max(target, the instant it was entered).  (`hD`: the execution's time limit, if there is one, is later than that
+instant; otherwise see `execution_timeout_exact_wait`.) -/
 theorem wait_state_not_early (env : Env) (fuel : Nat) (states : Json) (name : Str) (state data ctx input out : Json)
     (target : Rat) (retries : Nat) (st : St)
     (h : stateType state = S "Wait")
     (hi : applyPath data ctx (pathArg state "InputPath") = .ok input)
     (ht : waitTarget env state input ctx st.clock = .ok target)
+    (hD : execCut env.deadline (rmax st.clock target) = none)
     (ho : applyPath input ctx (pathArg state "OutputPath") = .ok out) :
     runState env (fuel + 1) states name state data ctx retries st =
       leave env fuel states name state data out ctx retries (st.closeKeep.waitUntil target) ∧
@@ -193,7 +196,7 @@ theorem wait_state_not_early (env : Env) (fuel : Nat) (states : Json) (name : St
   have h1 : (S "Wait" = S "Pass") = False := by decide
   have h2 : (S "Wait" = S "Succeed") = False := by decide
   have h3 : (S "Wait" = S "Fail") = False := by decide
-  exact ⟨by simp [runState, h, h1, h2, h3, hi, ht, ho], rfl, le_rmax_right _ _, le_rmax_left _ _⟩
+  exact ⟨by simp [runState, h, h1, h2, h3, hi, ht, hD, ho], rfl, le_rmax_right _ _, le_rmax_left _ _⟩
 
 /-- … so the `WaitStateExited` event of a Wait state that ends its scope carries exactly that instant -/
 theorem wait_exit_instant (env : Env) (fuel : Nat) (states : Json) (name : Str) (state data ctx input out : Json)
@@ -201,11 +204,12 @@ theorem wait_exit_instant (env : Env) (fuel : Nat) (states : Json) (name : Str) 
     (h : stateType state = S "Wait")
     (hi : applyPath data ctx (pathArg state "InputPath") = .ok input)
     (ht : waitTarget env state input ctx st.clock = .ok target)
+    (hD : execCut env.deadline (rmax st.clock target) = none)
     (ho : applyPath input ctx (pathArg state "OutputPath") = .ok out)
     (hE : isTrue (fld state "End") = true) (hL : (render out).length ≤ env.maxData) :
     (runState env (fuel + 2) states name state data ctx retries st).2.log = .exited (S "Wait") name out :: st.log ∧
     (runState env (fuel + 2) states name state data ctx retries st).2.times = rmax st.clock target :: st.times := by
-  have hw := (wait_state_not_early env (fuel + 1) states name state data ctx input out target retries st h hi ht ho).1
+  have hw := (wait_state_not_early env (fuel + 1) states name state data ctx input out target retries st h hi ht hD ho).1
   have : ¬ (render out).length > env.maxData := by omega
   rw [hw]
   simp [leave, hE, this, St.exit, St.waitUntil, h]
@@ -219,16 +223,55 @@ theorem wait_seconds_target (env : Env) (state input ctx : Json) (entered : Rat)
   unfold waitTarget
   simp only [hs, this, if_true, Option.getD_some]
 
-/-- (iii) a Task with `TimeoutSeconds: n` whose worker does not answer strictly before the deadline — `n`
-seconds after the instant this attempt was entered — fails with `States.Timeout` (handed to its Retry / Catch
-like any error), and `LambdaFunctionTimedOut` is filed at the deadline exactly: `n` seconds after the request -/
+/-- the Task's own deadline: `TimeoutSeconds: n` (no `TimeoutSecondsPath`) is `n` seconds after the entry … -/
+theorem own_deadline_seconds (state data ctx : Json) (entered : Rat) (n : Int)
+    (hnp : isTrue (fld state "TimeoutSecondsPath") = false) (hT : fld state "TimeoutSeconds" = some (.num n)) :
+    taskOwnDeadline state data ctx entered = .ok (some (entered + (n : Rat) * 1000)) := by
+  simp [taskOwnDeadline, hnp, taskDeadline, hT]
+
+/-- … `TimeoutSecondsPath: p` selecting the integer `n` in the state's **raw input** likewise (whatever
+`TimeoutSeconds` says), `true` counts as 1, any other value as 0 seconds, and a path that matches nothing is the
+runtime error -/
+theorem own_deadline_path (state data ctx : Json) (entered : Rat) (p : Str) (hne : p ≠ [])
+    (hP : fld state "TimeoutSecondsPath" = some (.str p)) :
+    (∀ n : Int, applyPath data ctx (some p) = .ok (.num n) →
+      taskOwnDeadline state data ctx entered = .ok (some (entered + (n : Rat) * 1000))) ∧
+    (applyPath data ctx (some p) = .ok (.bool true) → taskOwnDeadline state data ctx entered = .ok (some (entered + 1000))) ∧
+    (∀ v, applyPath data ctx (some p) = .ok v → (∀ n : Int, v ≠ .num n) → v ≠ .bool true →
+      taskOwnDeadline state data ctx entered = .ok (some entered)) ∧
+    (∀ e, applyPath data ctx (some p) = .error e → taskOwnDeadline state data ctx entered = .error e) := by
+  have ht : isTrue (fld state "TimeoutSecondsPath") = true := by
+    cases p with
+    | nil => exact absurd rfl hne
+    | cons c cs => simp [hP, isTrue, Json.truthy]
+  have hs : fldStr state "TimeoutSecondsPath" = some p := by
+    unfold fldStr; unfold fld at hP; rw [hP]
+  refine ⟨fun n hv => by simp [taskOwnDeadline, ht, hs, hv], fun hv => by simp [taskOwnDeadline, ht, hs, hv],
+    fun v hv h1 h2 => ?_, fun e hv => by simp [taskOwnDeadline, ht, hs, hv]⟩
+  cases v with
+  | num n => exact absurd rfl (h1 n)
+  | bool b => cases b with
+    | true => exact absurd rfl h2
+    | false => simp [taskOwnDeadline, ht, hs, hv]
+  | null => simp [taskOwnDeadline, ht, hs, hv]
+  | str x => simp [taskOwnDeadline, ht, hs, hv]
+  | arr x => simp [taskOwnDeadline, ht, hs, hv]
+  | obj x => simp [taskOwnDeadline, ht, hs, hv]
+
+/-- (iii) a Task whose own deadline is `n` seconds after the instant this attempt was entered (`hown`: by
+`TimeoutSeconds` or `TimeoutSecondsPath`, see `own_deadline_seconds` / `own_deadline_path`) and whose worker does not
+answer strictly before it fails with `States.Timeout` (handed to its Retry / Catch
+like any error), and `LambdaFunctionTimedOut` is filed at the deadline exactly: `n` seconds after the request.
+(`hD`: the execution's time limit, if there is one, is later than the Task's deadline; the other cases:
+`task_deadline_is_min`, `execution_timeout_exact_task`.) -/
 theorem task_timeout_exact (env : Env) (fuel : Nat) (states : Json) (name fn : Str)
     (state data ctx input params : Json) (retries : Nat) (st : St) (n : Int)
     (h : stateType state = S "Task")
     (hr : rpcFunction ((fldStr state "Resource").getD []) = some fn)
     (hi : applyPath data ctx (pathArg state "InputPath") = .ok input)
     (hp : tmplOpt env input ctx (fld state "Parameters") = .ok params)
-    (hT : fld state "TimeoutSeconds" = some (.num n)) (hn : 0 ≤ (n : Rat) * 1000)
+    (hown : taskOwnDeadline state data ctx st.clock = .ok (some (st.clock + (n : Rat) * 1000))) (hn : 0 ≤ (n : Rat) * 1000)
+    (hD : ∀ dl, env.deadline = some dl → st.clock + (n : Rat) * 1000 < dl)
     (hlate : ∀ d, env.delay fn params (bump st.counts (fn, params)).1 = some d →
       ¬ st.clock + d < st.clock + (n : Rat) * 1000) :
     runState env (fuel + 1) states name state data ctx retries st =
@@ -244,16 +287,24 @@ theorem task_timeout_exact (env : Env) (fuel : Nat) (states : Json) (name fn : S
   have h3 : (S "Task" = S "Fail") = False := by decide
   have h4 : (S "Task" = S "Wait") = False := by decide
   have h5 : (S "Task" = S "Choice") = False := by decide
-  have hd : taskDeadline state st.clock = some (st.clock + (n : Rat) * 1000) := by simp [taskDeadline, hT]
-  have ha : taskArrival (env.delay fn params (bump st.counts (fn, params)).1) (taskDeadline state st.clock) st.clock
+  have hm : rmax st.clock (st.clock + (n : Rat) * 1000) = st.clock + (n : Rat) * 1000 :=
+    rmax_of_le (add_nonneg_ge _ _ hn)
+  have hlim : taskLimit (some (st.clock + (n : Rat) * 1000)) env.deadline st.clock =
+      some { t := st.clock + (n : Rat) * 1000, task := true, exec := false } := by
+    cases hdl : env.deadline with
+    | none => simp [taskLimit, hm]
+    | some dl =>
+      have h1 := hD dl hdl
+      have h2 : rmax st.clock dl = dl := rmax_of_le (by grind)
+      have h3 : ¬ dl < st.clock + (n : Rat) * 1000 := by grind
+      simp [taskLimit, hm, h2, h1, h3]
+  have ha : taskArrival (env.delay fn params (bump st.counts (fn, params)).1)
+      (some (st.clock + (n : Rat) * 1000)) st.clock
       = some (st.clock + (n : Rat) * 1000, true) := by
-    rw [hd]
     cases hdl : env.delay fn params (bump st.counts (fn, params)).1 with
     | none => simp [taskArrival]
     | some d => simp [taskArrival, hlate d hdl]
-  have hm : rmax st.clock (st.clock + (n : Rat) * 1000) = st.clock + (n : Rat) * 1000 :=
-    rmax_of_le (add_nonneg_ge _ _ hn)
-  refine ⟨by simp [runState, h, h1, h2, h3, h4, h5, hr, hi, hp, ha, taskOutcome, taskEv], ?_, ?_⟩
+  refine ⟨by simp [runState, h, h1, h2, h3, h4, h5, hr, hi, hp, hown, ha, hlim, taskOutcome, taskEv], ?_, ?_⟩
   · simp [St.taskCall, St.push, St.waitUntil, hm]
   · simp [St.taskCall, St.push, St.waitUntil, hm]
 
@@ -264,16 +315,18 @@ theorem task_reply_instant (delay deadline : Rat) (now : Rat) (h : now + delay <
   simp [taskArrival, h]
 
 /-- (iv) a retried state is re-run exactly the Retrier's delay — `IntervalSeconds × BackoffRate^k` for the k-th
-retry (C07.kth_retry_delay) — after the failure -/
+retry (C07.kth_retry_delay) — after the failure (`hD`: that instant is before the execution's time limit, if there
+is one: `Env.retryCut`; otherwise see `execution_timeout_exact_retry`) -/
 theorem retry_delay_exact (env : Env) (fuel : Nat) (states : Json) (name : Str) (state data ctx : Json)
     (retries : Nat) (e msg : Str) (st : St) (d : Rat) (k : Nat)
     (h : decideError ((listOf (fld state "Retry")).map retrierOf) ((listOf (fld state "Catch")).map catcherOf) e retries = .retry d k)
-    (hd : 0 ≤ d * 1000) :
+    (hd : 0 ≤ d * 1000)
+    (hD : env.retryCut (st.retryAfter name d).clock = none) :
     handleErr env (fuel + 1) states name state data ctx retries e msg st =
       runFrom env fuel states name data ctx k (st.retryAfter name d) ∧
     (st.retryAfter name d).clock = st.clock + d * 1000 ∧
     (st.retryAfter name d).log = st.log := by
-  refine ⟨by simp [handleErr, h], ?_, rfl⟩
+  refine ⟨by simp only [handleErr, h, hD], ?_, rfl⟩
   simp [St.after, St.waitUntil, rmax_of_le (add_nonneg_ge _ _ hd)]
 
 /-- (v) the join of a fan-out all of whose branches succeed is at the latest instant a branch ended: one more
@@ -316,6 +369,216 @@ theorem instants_fuel_independent (env : Env) (n m : Nat) (h : n ≤ m) (asl inp
     (run env m asl input ctx).history = (run env n asl input ctx).history := by
   rw [Asl.run_fuel_independent env n m h asl input ctx hs]
   exact ⟨rfl, rfl, rfl⟩
+
+/-! ### the execution's time limit (the machine's top-level `TimeoutSeconds`)
+
+`Asl.run` takes the limit from the definition (`Env.forMachine`): `Env.deadline` is the instant `start +
+TimeoutSeconds` on the run's clock.  A Task or Wait that would go on until that instant or beyond fails the execution
+there with `States.Timeout` (internally `States.ExecutionTimeout`, which `handle_error` treats as unrecoverable);
+states that take no time do not look at it.  The theorems hold for every machine, input, oracle, environment and
+fuel; those about whole runs are stated for the switch of the open finding C08-F1 off (`Env.retryPastDeadline =
+false`: a Retrier's interval is cut at the limit too), which is the property's reading — the code's deviation is
+`late_retry_breaks_no_event_after_deadline`. -/
+
+/-- (vii) the time limit in force for a task invocation made at `now` is the earlier of the Task's own deadline `o`
+(entry + `TimeoutSeconds`) and the execution's `d`, both not before `now`; when the execution's comes first **or at
+the same instant** the time-out is the execution's (`exec`), and `LambdaFunctionTimedOut` is filed exactly when the
+Task's own is not later (`task`).  With only one of the two, that one; with neither, none. -/
+theorem task_deadline_is_min (o d now : Rat) :
+    (∃ l, taskLimit (some o) (some d) now = some l ∧
+      l.t = (if rmax now d ≤ rmax now o then rmax now d else rmax now o) ∧
+      l.t ≤ rmax now d ∧ l.t ≤ rmax now o ∧
+      (l.exec = true ↔ rmax now d ≤ rmax now o) ∧ (l.task = true ↔ rmax now o ≤ rmax now d)) ∧
+    taskLimit (some o) none now = some { t := rmax now o, task := true, exec := false } ∧
+    taskLimit none (some d) now = some { t := rmax now d, task := false, exec := true } ∧
+    taskLimit none none now = none := by
+  refine ⟨?_, rfl, rfl, rfl⟩
+  unfold taskLimit
+  simp only
+  split
+  · rename_i h
+    refine ⟨_, rfl, ?_, Rat.le_refl, Rat.le_of_lt h, ?_, ?_⟩
+    · simp [Rat.le_of_lt h]
+    · simp [Rat.le_of_lt h]
+    · simp [Rat.not_le.mpr h]
+  · split
+    · rename_i h1 h
+      refine ⟨_, rfl, ?_, Rat.le_of_lt h, Rat.le_refl, ?_, ?_⟩
+      · simp [Rat.not_le.mpr h]
+      · simp [Rat.not_le.mpr h]
+      · simp [Rat.le_of_lt h]
+    · rename_i h1 h2
+      have e : rmax now o = rmax now d := Rat.le_antisymm (Rat.not_lt.mp h1) (Rat.not_lt.mp h2)
+      refine ⟨_, rfl, ?_, by rw [e]; exact Rat.le_refl, Rat.le_refl, ?_, ?_⟩
+      · simp [e, Rat.le_refl]
+      · simp [e, Rat.le_refl]
+      · simp [e, Rat.le_refl]
+
+/-- (viii) the instant: whichever pending state runs into the execution's deadline `D` — a Wait whose end
+(`max(target, now)`), a Task whose limit in force, a Retrier's interval whose end is not before `D` — entered / decided at
+an instant `now ≤ D`, the instant at which it is cut is `D` exactly (the three cases below tie this to the interpreter:
+`execution_timeout_exact_wait` / `_task` / `_retry`) -/
+theorem execution_timeout_exact (D now : Rat) (hnow : now ≤ D) :
+    (∀ t d, execCut (some D) t = some d → d = D ∧ rmax now d = D) ∧
+    (∀ own l, taskLimit own (some D) now = some l → l.exec = true → l.t = D) := by
+  refine ⟨fun t d h => ?_, fun own l h hx => ?_⟩
+  · have := (execCut_some h).1
+    simp only [Option.some.injEq] at this
+    subst this
+    exact ⟨rfl, rmax_of_le hnow⟩
+  · rw [taskLimit_exec_t h hx]; exact rmax_of_le hnow
+
+/-- (viii-a) a Wait state that would be over at or after the execution's deadline `D` (`max(target, entry) ≥ D`)
+does not go on: at the instant `max(D, entry)` — `D` exactly when it was entered before — it hands the execution's
+time-out to `handle_error`; nothing is filed for the state (no `WaitStateExited`) -/
+theorem execution_timeout_exact_wait (env : Env) (fuel : Nat) (states : Json) (name : Str) (state data ctx input : Json)
+    (target D : Rat) (retries : Nat) (st : St)
+    (h : stateType state = S "Wait")
+    (hi : applyPath data ctx (pathArg state "InputPath") = .ok input)
+    (ht : waitTarget env state input ctx st.clock = .ok target)
+    (hdl : env.deadline = some D) (hover : D ≤ rmax st.clock target) :
+    runState env (fuel + 1) states name state data ctx retries st =
+      handleErr env fuel states name state data ctx retries execTimeoutName (S "m") (st.closeKeep.waitUntil D) ∧
+    (st.closeKeep.waitUntil D).clock = rmax st.clock D ∧
+    (st.clock ≤ D → (st.closeKeep.waitUntil D).clock = D) ∧
+    (st.closeKeep.waitUntil D).log = st.log := by
+  have h1 : (S "Wait" = S "Pass") = False := by decide
+  have h2 : (S "Wait" = S "Succeed") = False := by decide
+  have h3 : (S "Wait" = S "Fail") = False := by decide
+  have hc : execCut env.deadline (rmax st.clock target) = some D := by rw [hdl]; exact execCut_of_le hover
+  exact ⟨by simp [runState, h, h1, h2, h3, hi, ht, hc], rfl, fun hle => rmax_of_le hle, rfl⟩
+
+/-- (viii-b) a Task whose worker has not answered strictly before the limit in force `l`, that limit being (also) the
+execution's (`l.exec`: the execution's deadline is not after the Task's own): at the instant `l.t = max(D, now)` the
+execution's time-out is handed to `handle_error` — `LambdaFunctionTimedOut` is filed only if the Task's own deadline
+(`own`: by `TimeoutSeconds` or `TimeoutSecondsPath`) is that same instant (`l.task`), otherwise nothing but the request is -/
+theorem execution_timeout_exact_task (env : Env) (fuel : Nat) (states : Json) (name fn : Str)
+    (state data ctx input params : Json) (retries : Nat) (st : St) (D : Rat) (l : Limit)
+    (h : stateType state = S "Task")
+    (hr : rpcFunction ((fldStr state "Resource").getD []) = some fn)
+    (hi : applyPath data ctx (pathArg state "InputPath") = .ok input)
+    (hp : tmplOpt env input ctx (fld state "Parameters") = .ok params)
+    (hdl : env.deadline = some D)
+    (own : Option Rat) (hown : taskOwnDeadline state data ctx st.clock = .ok own)
+    (hl : taskLimit own (some D) st.clock = some l) (hx : l.exec = true)
+    (hlate : ∀ d, env.delay fn params (bump st.counts (fn, params)).1 = some d → ¬ st.clock + d < l.t) :
+    runState env (fuel + 1) states name state data ctx retries st =
+      handleErr env fuel states name state data ctx retries execTimeoutName (S "m")
+        (if l.task then (st.closeKeep.request true).taskCall (bump st.counts (fn, params)).2
+            ((fldStr state "Resource").getD []) params .lambdaTimedOut l.t
+         else (st.closeKeep.request true).taskSilent (bump st.counts (fn, params)).2
+            ((fldStr state "Resource").getD []) params l.t) ∧
+    l.t = rmax st.clock D ∧ (st.clock ≤ D → l.t = D) := by
+  have h1 : (S "Task" = S "Pass") = False := by decide
+  have h2 : (S "Task" = S "Succeed") = False := by decide
+  have h3 : (S "Task" = S "Fail") = False := by decide
+  have h4 : (S "Task" = S "Wait") = False := by decide
+  have h5 : (S "Task" = S "Choice") = False := by decide
+  have hl' : taskLimit own env.deadline st.clock = some l := by rw [hdl]; exact hl
+  have ha : taskArrival (env.delay fn params (bump st.counts (fn, params)).1) (some l.t) st.clock = some (l.t, true) := by
+    cases hd : env.delay fn params (bump st.counts (fn, params)).1 with
+    | none => simp [taskArrival]
+    | some d => simp [taskArrival, hlate d hd]
+  have ht := taskLimit_exec_t hl hx
+  refine ⟨?_, ht, fun hle => by rw [ht]; exact rmax_of_le hle⟩
+  cases htask : l.task with
+  | true => simp [runState, h, h1, h2, h3, h4, h5, hr, hi, hp, hown, hl', ha, hx, htask, taskOutcome, taskEv]
+  | false => simp [runState, h, h1, h2, h3, h4, h5, hr, hi, hp, hown, hl', ha, hx, htask, taskOutcome, taskEv]
+
+/-- (viii-c) a Retrier grants a re-run that would start at or after the execution's deadline `D`: the state is not
+re-run; the execution fails at `max(D, now)` — nothing is filed, the retry count plays no part any more -/
+theorem execution_timeout_exact_retry (env : Env) (fuel : Nat) (states : Json) (name : Str) (state data ctx : Json)
+    (retries : Nat) (e msg : Str) (st : St) (d : Rat) (k : Nat) (D : Rat)
+    (h : decideError ((listOf (fld state "Retry")).map retrierOf) ((listOf (fld state "Catch")).map catcherOf) e retries = .retry d k)
+    (hq : env.retryPastDeadline = false) (hdl : env.deadline = some D) (hover : D ≤ (st.retryAfter name d).clock) :
+    handleErr env (fuel + 1) states name state data ctx retries e msg st =
+      (.failed execTimeoutName (some (.str (S "<cause>"))) false, (((st.handover name).closeKeep).waitUntil D).failTok) ∧
+    ((((st.handover name).closeKeep).waitUntil D).failTok).clock = rmax st.clock D ∧
+    ((((st.handover name).closeKeep).waitUntil D).failTok).log = st.log := by
+  have hc : env.retryCut (st.retryAfter name d).clock = some D := by
+    unfold Env.retryCut; rw [hq, hdl]; simp only [Bool.false_eq_true, if_false]; exact execCut_of_le hover
+  exact ⟨by simp only [handleErr, h, hc], rfl, rfl⟩
+
+/-- (ix) the execution's time-out is not interceptable, whatever `Retry` / `Catch` the pending state has (`state` is
+any state definition): `handle_error` fails the scope with it, files nothing and runs nothing else … -/
+theorem execution_timeout_not_interceptable (env : Env) (fuel : Nat) (states : Json) (name : Str) (state data ctx : Json)
+    (retries : Nat) (msg : Str) (st : St) :
+    handleErr env (fuel + 1) states name state data ctx retries execTimeoutName msg st =
+      (.failed execTimeoutName (causeOf msg) false, st.failTok) ∧
+    st.failTok.log = st.log ∧ st.failTok.clock = st.clock ∧ st.failTok.counts = st.counts := by
+  have hd : decideError ((listOf (fld state "Retry")).map retrierOf) ((listOf (fld state "Catch")).map catcherOf)
+      execTimeoutName retries = .uncaught := by
+    unfold decideError
+    have : unrecoverable execTimeoutName = true := by decide
+    simp [this]
+  exact ⟨by simp [handleErr, hd], rfl, rfl, rfl⟩
+
+/-- … and whatever `Retry` / `Catch` every enclosing Parallel / Map state has (`state` is any state definition): a
+fan-out one of whose branches ended with the execution's time-out fails with it in turn — no `…StateFailed`, no exit,
+no retry, no Catcher's successor —, so it reaches the top of the execution through any nesting … -/
+theorem execution_timeout_passes_every_fanout (env : Env) (fuel : Nat) (states : Json) (name : Str) (state data ctx : Json)
+    (retries : Nat) (c : Option Json) (f : Bool) (st : St) :
+    ∃ c', (joinAndLeave env (fuel + 2) states name state data ctx retries (.error (.failed execTimeoutName c f)) st).1 =
+        .failed execTimeoutName c' false ∧
+      (joinAndLeave env (fuel + 2) states name state data ctx retries (.error (.failed execTimeoutName c f)) st).2.log = st.log ∧
+      (joinAndLeave env (fuel + 2) states name state data ctx retries (.error (.failed execTimeoutName c f)) st).2.clock = st.clock ∧
+      (joinAndLeave env (fuel + 2) states name state data ctx retries (.error (.failed execTimeoutName c f)) st).2.fanFail = st.fanFail := by
+  simp only [joinAndLeave]
+  have := fun msg st' => (execution_timeout_not_interceptable env fuel states name state data ctx retries msg st').1
+  rw [this]
+  exact ⟨_, rfl, rfl, rfl, by simp⟩
+
+/-- … where it is reported as `States.Timeout`: the run is FAILED, the terminal history event and the terminal
+notification carry `States.Timeout` -/
+theorem execution_timeout_reported_as_timeout (env : Env) (fuel : Nat) (asl input ctx : Json) (c : Option Json) (f : Bool)
+    (h : (runCore env fuel asl input ctx).1 = .failed execTimeoutName c f) :
+    (run env fuel asl input ctx).status = S "FAILED" ∧
+    (run env fuel asl input ctx).error = some (S "States.Timeout") ∧
+    (run env fuel asl input ctx).execTimeout = true ∧
+    (run env fuel asl input ctx).history.getLast? = some (.execFailed (S "States.Timeout") c) ∧
+    (run env fuel asl input ctx).notifications =
+      [(S "RUNNING", .null), (S "FAILED", errorOutput (S "States.Timeout") c)] := by
+  have hp : publicError execTimeoutName = S "States.Timeout" := by decide
+  unfold run Outcome.ofRun
+  rw [h]
+  refine ⟨rfl, by simp [hp], by simp, ?_, by simp [notificationsOf, terminalOf, hp]⟩
+  simp only [historyOf, terminalOf, hp]
+  rw [← List.cons_append, List.getLast?_append]
+  simp
+
+/-- (x) no logged event has an instant beyond the execution's deadline, and the run does not end beyond it: from any
+state whose clock is not beyond `B ≥ D`, for each of the interpreter's functions (here: a scope run from a state) -/
+theorem no_event_after_deadline_from (env : Env) (fuel : Nat) (D B : Rat) (states : Json) (name : Str) (data ctx : Json)
+    (r : Nat) (st : St)
+    (hdl : env.deadline = some D) (hq : env.retryPastDeadline = false) (hst : st.clock ≤ B) (hB : D ≤ B) :
+    (runFrom env fuel states name data ctx r st).2.clock ≤ B ∧
+    ∃ ts, (runFrom env fuel states name data ctx r st).2.times = ts ++ st.times ∧ ∀ t ∈ ts, t ≤ B :=
+  (capAll env D hdl hq fuel).runFrom states name data ctx r st B hst hB
+
+/-- … and for whole runs: a machine with `TimeoutSeconds: n` (n ≥ 0) — every event of the predicted history, the
+terminal one included, has an instant ≤ n s after the start, and so has the end of the run -/
+theorem no_event_after_deadline (env : Env) (fuel : Nat) (asl input ctx : Json) (n : Int)
+    (hT : fld asl "TimeoutSeconds" = some (.num n)) (hn : 0 ≤ (n : Rat) * 1000) (hq : env.retryPastDeadline = false) :
+    (∀ t ∈ (run env fuel asl input ctx).times, t ≤ (n : Rat) * 1000) ∧
+    (run env fuel asl input ctx).endTime ≤ (n : Rat) * 1000 := by
+  have hdl : (env.forMachine asl).deadline = some ((n : Rat) * 1000) := by simp [Env.forMachine, execDeadline, hT]
+  have hq' : (env.forMachine asl).retryPastDeadline = false := hq
+  have C : Capped ((n : Rat) * 1000) {} (runCore env fuel asl input ctx).2 := by
+    unfold runCore
+    split
+    · exact (capAll _ _ hdl hq' fuel).runFrom _ _ _ _ _ _ _ hn Rat.le_refl
+    · exact Capped.refl hn
+  obtain ⟨hc, ts, hts, hg⟩ := C
+  have hts' : (runCore env fuel asl input ctx).2.times = ts := by simpa using hts
+  refine ⟨?_, hc⟩
+  intro t ht
+  simp only [run, Outcome.ofRun, timesOf, hts', List.mem_cons, List.mem_append, List.mem_reverse] at ht
+  rcases ht with h | h | h
+  · rw [h]; exact hn
+  · exact hg t h
+  · cases hT' : terminalOf (runCore env fuel asl input ctx).1 with
+    | none => simp [hT'] at h
+    | some x => simp [hT'] at h; rw [h]; exact hc
 
 /-! non-vacuity -/
 example : (TimerSt.run [.set 1 100, .set 2 50, .clear 2, .advance 60, .set 1 200, .advance 150, .advance 250]).fired
@@ -389,5 +652,105 @@ example : (run envT 30 aslM (.obj [(k "xs", .arr [.num 5, .num 6, .num 7])]) (.o
   decide +kernel
 /-- hypothesis of `instants_fuel_independent` -/
 example : (run envT 20 aslT inT (.obj [])).status ≠ S "FUEL" := by decide +kernel
+
+/-! the execution's time limit, concretely (`envT`: the worker takes 1500 ms for its first answer, 10 ms afterwards) -/
+private def withLimit (n : Int) (asl : Json) : Json :=
+  match asl with
+  | .obj kvs => .obj ((k "TimeoutSeconds", .num n) :: kvs)
+  | j => j
+private def catchAll (next : String) : (Str × Json) :=
+  (k "Catch", .arr [.obj [(k "ErrorEquals", .arr [.str (k "States.ALL")]), (k "Next", .str (k next))]])
+private def passEnd : Json := .obj [(k "Type", .str (k "Pass")), (k "End", .bool true)]
+/-- a Wait of 5 s under a limit of 2 s: FAILED with States.Timeout at 2000 ms exactly, the Wait state is not exited
+(hypotheses of `execution_timeout_exact_wait`, `no_event_after_deadline`, `execution_timeout_reported_as_timeout`) -/
+private def aslXW : Json := withLimit 2 (.obj [(k "StartAt", .str (k "W")), (k "States", .obj [(k "W", waitSt 5 none)])])
+example : (run envT 20 aslXW inT (.obj [])).history =
+      [.execStarted inT, .entered (k "Wait") (k "W") inT, .execFailed (k "States.Timeout") (some (.str (k "<cause>")))] ∧
+    (run envT 20 aslXW inT (.obj [])).times = [0, 0, 2000] ∧ (run envT 20 aslXW inT (.obj [])).execTimeout = true := by
+  decide +kernel
+example : fld aslXW "TimeoutSeconds" = some (.num 2) ∧ (0 : Rat) ≤ ((2 : Int) : Rat) * 1000 ∧ envT.retryPastDeadline = false ∧
+    (envT.forMachine aslXW).deadline = some 2000 ∧ (2000 : Rat) ≤ rmax 0 5000 := by decide +kernel
+example : (match (runCore envT 20 aslXW inT (.obj [])).1 with
+    | .failed e c _ => decide (e = execTimeoutName) && decide (c = some (.str (k "<cause>")))
+    | _ => false) = true := by decide +kernel
+/-- a Task with `TimeoutSeconds: 2` and a Catcher for everything under a limit of 2 s (a tie): `LambdaFunctionTimedOut` is
+filed at 2000 ms, and the execution FAILS there — the Catcher is not consulted (hypotheses of
+`execution_timeout_exact_task` with `l.task`, `execution_timeout_not_interceptable`, `task_deadline_is_min`) -/
+private def tC (n : Int) : Json := .obj [
+  (k "Type", .str (k "Task")), (k "Resource", .str arnF), (k "TimeoutSeconds", .num n), (k "Next", .str (k "Z")), catchAll "Z"]
+private def slowEnv : Env := { envT with delay := fun _ _ _ => some 9000 }
+private def aslXT (lim tmo : Int) : Json :=
+  withLimit lim (.obj [(k "StartAt", .str (k "T")), (k "States", .obj [(k "T", tC tmo), (k "Z", passEnd)])])
+example : (run slowEnv 20 (aslXT 2 2) inT (.obj [])).history =
+      [.execStarted inT, .entered (k "Task") (k "T") inT, .lambdaScheduled inT arnF, .lambdaTimedOut,
+       .execFailed (k "States.Timeout") (some (.str (k "<cause>")))] ∧
+    (run slowEnv 20 (aslXT 2 2) inT (.obj [])).times = [0, 0, 0, 2000, 2000] := by decide +kernel
+example : taskLimit (taskDeadline (tC 2) 0) (some 2000) 0 = some { t := 2000, task := true, exec := true } := by decide +kernel
+/-- … the execution's limit first (2 s against the Task's 3 s): no `LambdaFunctionTimedOut`, FAILED at 2000 ms -/
+example : (run slowEnv 20 (aslXT 2 3) inT (.obj [])).history =
+      [.execStarted inT, .entered (k "Task") (k "T") inT, .lambdaScheduled inT arnF,
+       .execFailed (k "States.Timeout") (some (.str (k "<cause>")))] ∧
+    (run slowEnv 20 (aslXT 2 3) inT (.obj [])).times = [0, 0, 0, 2000] := by decide +kernel
+example : taskLimit (taskDeadline (tC 3) 0) (some 2000) 0 = some { t := 2000, task := false, exec := true } := by decide +kernel
+/-- … the Task's own limit first (1 s against 3 s): it is the Task's time-out, the Catcher takes it and the execution
+SUCCEEDS at 1000 ms (`task_timeout_exact` with its hypothesis `hD`) -/
+example : (run slowEnv 20 (aslXT 3 1) inT (.obj [])).status = S "SUCCEEDED" ∧
+    (run slowEnv 20 (aslXT 3 1) inT (.obj [])).endTime = 1000 := by decide +kernel
+example : taskLimit (taskDeadline (tC 1) 0) (some 3000) 0 = some { t := 1000, task := true, exec := false } := by decide +kernel
+/-- a Parallel state with a Catcher for everything whose branches wait 5 s and 1 s, under a limit of 2 s: the first
+branch runs into the limit, the Parallel state's Catcher is not consulted, nothing is filed for the Parallel state
+(hypotheses of `execution_timeout_passes_every_fanout`) -/
+private def aslXP : Json := withLimit 2 (.obj [(k "StartAt", .str (k "P")), (k "States", .obj [
+  (k "P", .obj [(k "Type", .str (k "Parallel")), (k "Next", .str (k "Z")), catchAll "Z",
+    (k "Branches", .arr [br "A" (waitSt 5 none), br "B" (waitSt 1 none)])]), (k "Z", passEnd)])])
+example : (run envT 30 aslXP inT (.obj [])).error = some (k "States.Timeout") ∧ (run envT 30 aslXP inT (.obj [])).endTime = 2000 ∧
+    (run envT 30 aslXP inT (.obj [])).fanFail = false ∧ (run envT 30 aslXP inT (.obj [])).tieFail = false ∧
+    (run envT 30 aslXP inT (.obj [])).log =
+      [.entered (k "Parallel") (k "P") inT, .fanStarted (k "Parallel") none, .entered (k "Wait") (k "A") inT,
+       .entered (k "Wait") (k "B") inT, .exited (k "Wait") (k "B") inT] := by decide +kernel
+/-- a Task that fails at once and is retried after 2 s (back-off 2), under a limit of 3 s: the second re-run would start
+at 6020 ms — the execution ends at 3000 ms instead (hypotheses of `execution_timeout_exact_retry`) -/
+private def failEnv : Env := { envT with task := fun _ _ _ => .obj [(k "errorType", .str (k "Boom"))], delay := fun _ _ _ => some 10 }
+private def tR : Json := .obj [
+  (k "Type", .str (k "Task")), (k "Resource", .str arnF), (k "End", .bool true),
+  (k "Retry", .arr [.obj [(k "ErrorEquals", .arr [.str (k "States.ALL")]), (k "IntervalSeconds", .num 2)]])]
+private def aslXR : Json := withLimit 3 (.obj [(k "StartAt", .str (k "T")), (k "States", .obj [(k "T", tR)])])
+example : (run failEnv 30 aslXR inT (.obj [])).times = [0, 0, 0, 10, 2010, 2020, 3000] ∧
+    (run failEnv 30 aslXR inT (.obj [])).error = some (k "States.Timeout") := by decide +kernel
+
+/-- C08-F1, the formal counterpart (`Env.retryPastDeadline`, the code's behaviour): the same run with the switch on
+goes on after the limit — a request is filed at 6020 ms and the execution ends there, 3020 ms after its limit of
+3000 ms: `no_event_after_deadline` fails for the code -/
+theorem late_retry_breaks_no_event_after_deadline :
+    (run { failEnv with retryPastDeadline := true } 30 aslXR inT (.obj [])).times = [0, 0, 0, 10, 2010, 2020, 6020, 6020] ∧
+    (run { failEnv with retryPastDeadline := true } 30 aslXR inT (.obj [])).endTime = 6020 ∧
+    ¬ (run { failEnv with retryPastDeadline := true } 30 aslXR inT (.obj [])).endTime ≤ 3000 ∧
+    (run failEnv 30 aslXR inT (.obj [])).endTime = 3000 := by decide +kernel
+
+/-! `TimeoutSecondsPath`, `HeartbeatSeconds` -/
+/-- a Task with `TimeoutSecondsPath: "$.a"` on the raw input `{"a": 1}` (and a `TimeoutSeconds: 9` that does not count):
+the worker's first answer would take 1500 ms — timed out at 1000 ms exactly (hypotheses of `own_deadline_path`,
+`task_timeout_exact` through `hown`) -/
+private def tPath : Json := .obj [
+  (k "Type", .str (k "Task")), (k "Resource", .str arnF), (k "TimeoutSecondsPath", .str (k "$.a")), (k "TimeoutSeconds", .num 9),
+  (k "End", .bool true)]
+example : (run envT 20 (.obj [(k "StartAt", .str (k "T")), (k "States", .obj [(k "T", tPath)])]) inT (.obj [])).history =
+      [.execStarted inT, .entered (k "Task") (k "T") inT, .lambdaScheduled inT arnF, .lambdaTimedOut,
+       .execFailed (k "States.Timeout") (some (.str (k "<cause>")))] ∧
+    (run envT 20 (.obj [(k "StartAt", .str (k "T")), (k "States", .obj [(k "T", tPath)])]) inT (.obj [])).times = [0, 0, 0, 1000, 1000] := by
+  decide +kernel
+example : fld tPath "TimeoutSecondsPath" = some (.str (k "$.a")) ∧ applyPath inT (.obj []) (some (k "$.a")) = .ok (.num 1) ∧
+    (match taskOwnDeadline tPath inT (.obj []) 0 with | .ok (some t) => decide (t = 1000) | _ => false) = true :=
+  ⟨by decide, by rfl, by decide +kernel⟩
+/-- … a path that matches nothing is the runtime error, which no Retry / Catch intercepts -/
+example : (match taskOwnDeadline tPath (.obj []) (.obj []) 0 with | .error .pathMatch => true | _ => false) = true := by
+  decide +kernel
+/-- `HeartbeatSeconds` is not implemented by the engine, so it is no part of the semantics: with `HeartbeatSeconds: 1`
+and no `TimeoutSeconds` the worker's 1500 ms are waited for -/
+private def tHb : Json := .obj [
+  (k "Type", .str (k "Task")), (k "Resource", .str arnF), (k "HeartbeatSeconds", .num 1), (k "End", .bool true)]
+example : (run envT 20 (.obj [(k "StartAt", .str (k "T")), (k "States", .obj [(k "T", tHb)])]) inT (.obj [])).status = S "SUCCEEDED" ∧
+    (run envT 20 (.obj [(k "StartAt", .str (k "T")), (k "States", .obj [(k "T", tHb)])]) inT (.obj [])).endTime = 1500 := by
+  decide +kernel
 
 end Asl.C08
